@@ -1,10 +1,10 @@
 /-
 C02 — optimize() never trades a satisfied constraint for objective score.
 Proved here (pure total specifications, any lawful score order, every tape and setting): the two
-local optimisers keep the local problem feasible and never lower its total.  The lift from the
-local problem to the whole problem is the localization soundness of each constraint (C08) and
-score faithfulness of each objective (C09); it is stated, not yet proved, as a composition (see
-DESIGN.md, C02/C03: partial).
+local optimisers keep the local problem feasible and never lower its total; and the lift from the
+local problems to the whole problem (`optimize_preserves_feasible`, second half of this file): given
+the localization soundness of each evaluated constraint (`LocalSound`, the first clause of C08 —
+proved per class in Props/C08), `optimize()` keeps every evaluated constraint satisfied.
 -/
 import DnaModel.Proofs.SolverPure
 import DnaModel.Props.C06
